@@ -69,6 +69,7 @@ G0 == [ sc      |-> "none",
         txins   |-> <<>>,      \* client -> keys it INSERTed since BEGIN (or in the current autocommit statement)
         everins |-> <<>>,      \* client -> keys it has ever INSERTed through its current handle (KF-MAST-3)
         leakable|-> {},        \* keys INSERTed by a transaction that was rolled back or whose commit failed (KF-MAST-1)
+        ord     |-> <<>>,      \* <<a, b>> (concrete key literals) -> recorded result of Key.Order(a, b)
         cfail   |-> {},        \* clients whose last COMMIT failed (SQLite rolled the transaction back)
         fault   |-> {}         \* clients with an active fault / crash plan
       ]
@@ -115,8 +116,13 @@ OnlyLeaked(rows, expected) == expected \subseteq rows /\ rows # expected /\ \A r
 (* vacuumed) the handle that did the INSERT reads the stale row again.  Named only when the deviation is exactly  *)
 (* extra rows whose keys this client once INSERTed.                                                              *)
 OnlyStale(c, rows, expected) == expected \subseteq rows /\ rows # expected /\ \A r \in rows \ expected : r[1] \in Get(g.everins, c, {})
+(* KF-EMPTYTEXT-1: the SQLite binding returns an empty TEXT as NULL.  Named only when the observed rows are    *)
+(* exactly the expected rows with every empty text (value or key) read as NULL.                              *)
+ET(v) == IF v = "t:" THEN R!NullV ELSE v
+NormET(rows) == {<<ET(r[1]), [cc \in DOMAIN r[2] |-> ET(r[2][cc])]>> : r \in rows}
 Suffix(c, rows, expected) == IF OnlyLeaked(rows, expected) THEN "_LeakedInsert"
-                             ELSE IF OnlyStale(c, rows, expected) THEN "_StaleCachedInsert" ELSE ""
+                             ELSE IF OnlyStale(c, rows, expected) THEN "_StaleCachedInsert"
+                             ELSE IF rows = NormET(expected) THEN "_EmptyTextReadsNull" ELSE ""
 CheckRows(e, c, facts, rows, where) ==
   LET ideal == Ideal(facts) IN
   IF rows # ideal
@@ -485,10 +491,36 @@ OnSql(e) ==
       sameRows == e.kind # "query" \/ e.outcome # "ok" \/ e.sh_outcome # "ok"
                   \/ (IF e.ordered = 1 THEN e.rows = e.sh_rows ELSE SeqToBag(e.rows) = SeqToBag(e.sh_rows))
       TableProps == {"C06", "C07", "C08"}
+      \* KF-EMPTYTEXT-1 in SQL form: the statement names the empty string, or the native result contains one
+      involvesET == (\E i \in DOMAIN e.args : e.args[i] = "t:") \/ (\E i \in DOMAIN e.sh_rows : \E j \in DOMAIN e.sh_rows[i] : e.sh_rows[i][j] = "t:")
+      \* KF-MAST-4: same rows as a SET, but repeated / misplaced (a corrupted cached node is visited twice)
+      sameSet == e.kind = "query" /\ e.outcome = "ok" /\ e.sh_outcome = "ok" /\ Range(e.rows) = Range(e.sh_rows)
+      sfx == IF involvesET THEN "_EmptyTextInvolved" ELSE IF sameSet THEN "_SameSetDifferentSequence" ELSE ""
   IN [g2 |-> g,
-      v |-> (IF ~sameOutcome THEN VAll(TableProps, "_SameOutcome", e,
+      v |-> (IF ~sameOutcome THEN VAll(TableProps, "_SameOutcome" \o sfx, e,
                     [q |-> e.q, args |-> e.args, s3db |-> <<e.outcome, e.affected, e.err>>, native |-> <<e.sh_outcome, e.sh_affected>>]) ELSE {})
-            \cup (IF ~sameRows THEN VAll(TableProps, "_SameRows", e, [q |-> e.q, args |-> e.args, s3db |-> e.rows, native |-> e.sh_rows]) ELSE {})]
+            \cup (IF ~sameRows THEN VAll(TableProps, "_SameRows" \o sfx, e, [q |-> e.q, args |-> e.args, s3db |-> e.rows, native |-> e.sh_rows]) ELSE {})]
+
+(* C07: direct comparisons.  ak / bk are the abstract keys (KeyOrder.tla) of the concrete literals a / b. *)
+KClsRank(c) == CASE c = "num" -> 0 [] c = "text" -> 1 [] c = "blob" -> 2
+KSign(x) == IF x < 0 THEN -1 ELSE IF x > 0 THEN 1 ELSE 0
+KCmp(a, b) == IF a.cls # b.cls THEN KSign(KClsRank(a.cls) - KClsRank(b.cls)) ELSE KSign(a.pos - b.pos)
+OnOrder(e) ==
+  LET want == KCmp(e.ak, e.bk) IN
+  [g2 |-> [g EXCEPT !.ord = Put(@, <<e.a, e.b>>, KSign(e.res))],
+   v |-> (IF Has(e, "panic") THEN V("C07", "C07_NoCrash", e, [a |-> e.a, b |-> e.b, panic |-> e.panic]) ELSE {})
+         \cup (IF ~Has(e, "panic") /\ KSign(e.res) # want THEN V("C07", "C07_CmpMatches", e, [a |-> e.a, b |-> e.b, got |-> e.res, want |-> want]) ELSE {})
+         \* the specification's order must itself agree with native SQLite; if not, the machinery is wrong (exit 2)
+         \cup (IF e.native # want THEN V("C07", "C07_SPEC_DISAGREES_WITH_SQLITE", e, [a |-> e.a, b |-> e.b, native |-> e.native, spec |-> want]) ELSE {})]
+OnOrderDone(e) ==
+  LET P == DOMAIN g.ord
+      K == {p[1] : p \in P}
+      anti == {p \in P : <<p[2], p[1]>> \in P /\ g.ord[p] # -g.ord[<<p[2], p[1]>>]}
+      trans == {t \in K \X K \X K : <<t[1], t[2]>> \in P /\ <<t[2], t[3]>> \in P /\ <<t[1], t[3]>> \in P
+                                      /\ g.ord[<<t[1], t[2]>>] <= 0 /\ g.ord[<<t[2], t[3]>>] <= 0 /\ g.ord[<<t[1], t[3]>>] > 0}
+  IN [g2 |-> g,
+      v |-> (IF anti # {} THEN V("C07", "C07_Antisym", e, anti) ELSE {})
+            \cup (IF trans # {} THEN V("C07", "C07_Trans", e, trans) ELSE {})]
 
 OnPlan(e) == [g2 |-> [g EXCEPT !.fault = @ \cup {e.c}], v |-> {}]
 OnHeal(e) == [g2 |-> [g EXCEPT !.fault = @ \ {e.c}], v |-> {}]
@@ -518,6 +550,8 @@ Handle(e) ==
     [] e.ev = "vacuum"     -> OnVacuum(e)
     [] e.ev = "tx2"        -> OnTx2(e)
     [] e.ev = "sql"        -> OnSql(e)
+    [] e.ev = "order"      -> OnOrder(e)
+    [] e.ev = "order_done" -> OnOrderDone(e)
     [] e.ev = "plan"       -> OnPlan(e)
     [] e.ev = "heal"       -> OnHeal(e)
     [] e.ev \in {"panic", "hang"} -> OnPanic(e)
